@@ -521,7 +521,15 @@ func (e *Eval) call(n *Node) Val {
 			if e.old == nil {
 				e.fail("frame() needs a pre-state")
 			}
-			return Val{T: x.frameTerm(e.st, e.old), Sort: "Bool"}
+			except := map[string][]string{}
+			for _, a := range args {
+				v := e.eval(a)
+				if v.Addr == nil {
+					e.fail("frame(): %s is not a location", a)
+				}
+				except[v.Addr.Key] = append(except[v.Addr.Key], v.Addr.Ref)
+			}
+			return Val{T: x.frameTerm(e.st, e.old, except), Sort: "Bool"}
 		case "allocated":
 			v := e.eval(args[0])
 			return Val{T: fmt.Sprintf("(< %s %s)", v.T, x.get(e.st, "$alloc")), Sort: "Bool"}
@@ -541,6 +549,11 @@ func (e *Eval) call(n *Node) Val {
 				v = Val{T: "0", Sort: "Int"}
 			}
 			return Val{T: fmt.Sprintf("(store %s %s %s)", a.T, i.T, v.T), Sort: e.sortOf(a)}
+		case "stored":
+			// stored(v): the value held by an atomic.Value (argument: address of the atomic.Value)
+			v := e.eval(args[0])
+			x.regComp("AtomicValue", "(Array Int Iface)")
+			return Val{T: fmt.Sprintf("(select %s %s)", x.get(e.st, "AtomicValue"), v.T), Typ: types.NewInterfaceType(nil, nil)}
 		case "cast":
 			// cast(ref, TypeName): view an object reference as *TypeName
 			v := e.eval(args[0])
@@ -590,6 +603,48 @@ func (e *Eval) call(n *Node) Val {
 				return Val{T: fmt.Sprintf("(ite (>= %s 0.0) (to_int %s) (- (to_int (- %s))))", v.T, v.T, v.T), Sort: "Int"}
 			}
 			return Val{T: v.T, Sort: "Int"}
+		}
+		if nm == "seqof" {
+			// seqof(j, expr): the sequence g with g[j] == expr for every integer j
+			if len(e.bound) > 0 || args[0].Op != "ident" {
+				e.fail("seqof(j, expr) must not appear under a quantifier")
+			}
+			c := *e
+			c.bound = map[string]Val{}
+			x.n++
+			bn := fmt.Sprintf("%s_q%d", args[0].Name, x.n)
+			c.bound[args[0].Name] = Val{T: bn, Sort: "Int"}
+			body := c.eval(args[1])
+			bs := c.sortOf(body)
+			g := x.fresh("seq")
+			x.decl(g, "(Array Int "+bs+")")
+			x.emit(fmt.Sprintf("(assert (forall ((%s Int)) (! (= (select %s %s) %s) :pattern ((select %s %s)))))", bn, g, bn, body.T, g, bn))
+			return Val{T: g, Sort: "(Array Int " + bs + ")"}
+		}
+		if sf, ok := x.db.SFuncs[nm]; ok && sf.Rec {
+			var as []string
+			for i, a := range args {
+				v := e.eval(a)
+				if sf.Sorts[i] == "Real" {
+					v = e.toReal(v)
+				}
+				as = append(as, v.T)
+			}
+			x.declRec(sf, e)
+			return Val{T: fmt.Sprintf("(%s %s)", sf.Name, strings.Join(as, " ")), Sort: sf.Ret}
+		}
+		if v, ok := e.env[nm]; ok && v.Typ != nil {
+			// application of a function-typed value with a pure callback contract
+			if n, ok := v.Typ.(*types.Named); ok && n.Obj().Pkg() != nil {
+				key := n.Obj().Pkg().Path() + "." + n.Obj().Name() + ".call"
+				if fs := x.db.Funcs[key]; fs != nil && fs.Pure {
+					var as []Val
+					for _, a := range args {
+						as = append(as, e.eval(a))
+					}
+					return x.pureApp(e.st, key, n.Underlying().(*types.Signature), Val{T: v.T, Typ: types.Typ[types.Int]}, as)
+				}
+			}
 		}
 		if sf, ok := x.db.SFuncs[nm]; ok {
 			if len(args) != len(sf.Params) {
@@ -751,6 +806,9 @@ func (x *Engine) pureApp(st *State, key string, sig *types.Signature, recv Val, 
 	rt := sig.Results().At(0).Type()
 	sorts := []string{"Int", x.sortOf(recv.Typ)}
 	terms := []string{x.get(st, "$epoch"), recv.T}
+	if fs := x.db.Funcs[key]; fs != nil && fs.Stable {
+		terms[0] = "0"
+	}
 	for i, a := range args {
 		pt := sig.Params().At(i).Type()
 		sorts = append(sorts, x.sortOf(pt))
@@ -786,7 +844,7 @@ func (x *Engine) declBox(sort string) {
 var _ = constant.MakeBool
 
 // frameTerm: all heap components of st agree with old on references allocated in old.
-func (x *Engine) frameTerm(st, old *State) string {
+func (x *Engine) frameTerm(st, old *State, except map[string][]string) string {
 	var keys []string
 	for k := range x.compSort {
 		keys = append(keys, k)
@@ -806,7 +864,11 @@ func (x *Engine) frameTerm(st, old *State) string {
 		case strings.HasPrefix(k, "G:"), strings.HasPrefix(k, "ghost:"):
 			cs = append(cs, fmt.Sprintf("(= %s %s)", fin, ini))
 		default:
-			cs = append(cs, fmt.Sprintf("(forall ((r Int)) (! (=> (< r %s) (= (select %s r) (select %s r))) :pattern ((select %s r))))", a0, fin, ini, fin))
+			guard := fmt.Sprintf("(< r %s)", a0)
+			for _, ex := range except[k] {
+				guard = fmt.Sprintf("(and %s (not (= r %s)))", guard, ex)
+			}
+			cs = append(cs, fmt.Sprintf("(forall ((r Int)) (=> %s (= (select %s r) (select %s r))))", guard, fin, ini))
 		}
 	}
 	return andTerms(cs...)
@@ -829,4 +891,20 @@ func arrayElemSort(s string) string {
 		}
 	}
 	return s
+}
+
+// declRec emits the define-fun-rec of a recursive spec function (once).
+func (x *Engine) declRec(sf *SpecFunc, e *Eval) {
+	if x.declared["rec:"+sf.Name] {
+		return
+	}
+	x.declared["rec:"+sf.Name] = true
+	c := &Eval{x: x, st: e.st, old: e.old, env: map[string]Val{}, pkg: e.pkgOf(sf.Pkg), bound: map[string]Val{}}
+	var ps []string
+	for i, p := range sf.Params {
+		c.bound[p] = Val{T: p + "_r", Sort: sf.Sorts[i]}
+		ps = append(ps, fmt.Sprintf("(%s_r %s)", p, sf.Sorts[i]))
+	}
+	body := c.eval(sf.Body)
+	x.decls = append(x.decls, fmt.Sprintf("(define-fun-rec %s (%s) %s %s)", sf.Name, strings.Join(ps, " "), sf.Ret, body.T))
 }
